@@ -62,6 +62,9 @@ func runC09(c *fw.Ctx) {
 	}
 	afterCommitMutations := 0
 	commits := 0
+	var snap *wmpt.WeightedMerkleTrie // an isolated view taken with CopyRoot at a clean point; must keep answering for its own content
+	var snapModel wl.Model
+	earlier := map[string][]wl.Entry{} // values a key held before (for changing a value back)
 	for step := 0; step < nsteps; step++ {
 		keys := m.Keys()
 		x := r.Intn(100)
@@ -92,7 +95,12 @@ func runC09(c *fw.Ctx) {
 			v, w := g.Value()
 			if r.Intn(4) == 0 {
 				v, w = m[string(k)].Val, m[string(k)].W // unchanged re-write
+			} else if e := earlier[string(k)]; len(e) > 0 && r.Intn(3) == 0 {
+				v, w = e[r.Intn(len(e))].Val, 0 // change the value back to one the key held before
+				w = wl.WeightOf(v)
+				c.Count("values_changed_back", 1)
 			}
+			earlier[string(k)] = append(earlier[string(k)], m[string(k)])
 			c.Tracef("overwrite %s=%s/%d", wl.KeyStr(k), v, w)
 			if err := t.Update(k, v, w); err != nil {
 				fail("Update (overwrite) failed: %v", err)
@@ -171,6 +179,18 @@ func runC09(c *fw.Ctx) {
 				return
 			}
 			c.Count("full_checks", 1)
+			if snap != nil { // the earlier snapshot still answers for the content it was taken at
+				if f := wl.CheckFull(snap, snapModel, true); f != "" {
+					fail("a view taken earlier with CopyRoot no longer answers for its own content after the source trie moved on: %s", f)
+					return
+				}
+				c.Count("snapshot_checks", 1)
+				snap = nil
+			} else if r.Intn(3) == 0 && !onPebble {
+				snap = wmpt.New(t.CopyRoot(r.Intn(8)), db)
+				snapModel = m.Copy()
+				c.Tracef("snapshot view via CopyRoot")
+			}
 		case x < 93:
 			if !clean {
 				continue
@@ -229,8 +249,8 @@ func init() {
 	fw.Register(&fw.Prop{
 		ID:    "C09",
 		Level: "exploration",
-		Rule: "seeded histories of 8..30 (quick) / 8..80 (thorough) steps over 32-byte keys that copy a random-length nibble prefix (0..63) of an existing key: update (Update or Put), overwrite (new or unchanged value), delete of live and absent keys (Update with empty value or Delete, whose returned weight is checked), Commit(level 0..5)+batch commit, " +
-			"garbage-collection pass and reload (from (root hash, weight), or a new trie over CopyRoot(level)) at clean points; every 50th history on real pebble. Weight is a fixed function of the value. After every step Weight() == sum of live weights; after every commit, GC pass and reload: Root() == independent reference root from the sorted live set, " +
+		Rule: "seeded histories of 8..30 (quick) / 8..80 (thorough) steps over 32-byte keys that copy a random-length nibble prefix (0..63) of an existing key: update (Update or Put), overwrite (new value, unchanged value, or back to a value the key held before), delete of live and absent keys (Update with empty value or Delete, whose returned weight is checked), Commit(level 0..5)+batch commit, " +
+			"garbage-collection pass and reload (from (root hash, weight), or a new trie over CopyRoot(level)) at clean points; every 50th history on real pebble; after a third of the commits an isolated view of the trie is taken with CopyRoot(level) and must still answer (weight, root, every block) for its own content after the source trie has been mutated and committed again. Weight is a fixed function of the value. After every step Weight() == sum of live weights; after every commit, GC pass and reload: Root() == independent reference root from the sorted live set, " +
 			"for EVERY block 1..W the key named by GetBlockProof is the model owner and the proof verifies to the reference root with the owner's value, block W+1 is refused. non-trivial = history that mutates a key after a commit (its subtree is then a hash reference); distinct by trace hash",
 		Cases: func(tier string) int {
 			if tier == "thorough" {
@@ -239,7 +259,7 @@ func init() {
 			return 16000
 		},
 		Run:    runC09,
-		Floors: map[string]int64{"histories": 15000, "steps": 200000, "commits": 20000, "full_checks": 20000, "gc_passes": 2000, "reloads": 2500, "mutations_after_a_commit": 30000, "delete_absent": 3000, "histories_on_pebble": 100, "puts": 10000, "deletes_via_Delete": 3000, "reloads_via_CopyRoot": 500},
+		Floors: map[string]int64{"histories": 15000, "steps": 200000, "commits": 20000, "full_checks": 20000, "gc_passes": 2000, "reloads": 2500, "mutations_after_a_commit": 30000, "delete_absent": 3000, "histories_on_pebble": 100, "puts": 10000, "deletes_via_Delete": 3000, "reloads_via_CopyRoot": 500, "snapshot_checks": 2000, "values_changed_back": 2000},
 		Assumptions: []string{
 			"weight is a function of the value (the property's domain)",
 			"garbage collection and reload are only issued when the live trie has no uncommitted mutation (GC on a dirty trie belongs to C11)",
